@@ -832,6 +832,21 @@ class WorkflowStateMachine(object):
         if current_workflow_status != new_workflow_status:
             workflow_state.status = new_workflow_status
 
+        # If a paused workflow is found to be completed on resume, then ensure there is no
+        # unreachable barrier task(s), same as when the workflow completes on a task event.
+        if (
+            current_workflow_status != new_workflow_status
+            and new_workflow_status == statuses.SUCCEEDED
+        ):
+            unreachable_barriers = workflow_state.get_unreachable_barriers()
+
+            if unreachable_barriers:
+                workflow_state.status = statuses.FAILED
+
+                for entry in unreachable_barriers:
+                    e = exc.UnreachableJoinError(entry["id"], entry["route"])
+                    workflow_state.conductor.log_error(e, task_id=entry["id"], route=entry["route"])
+
     @classmethod
     def process_event(cls, workflow_state, event):
         if isinstance(event, events.WorkflowExecutionEvent):
